@@ -458,6 +458,12 @@ class Repository:
                 f'of the allowed types ({type_names})'
             )
 
+    def _check_adapter_role(self, adapter_type, role):
+        if not issubclass(adapter_type, role):
+            raise exceptions.ReplicatError(
+                f'{adapter_type.__name__} cannot be used as {role.__name__}'
+            )
+
     def _make_config(self, *, settings=None):
         if settings is None:
             settings = {}
@@ -468,18 +474,21 @@ class Repository:
         hashing_settings = settings.get('hashing', {})
         hashing_settings.setdefault('name', self.DEFAULT_HASHER_NAME)
         hasher_type, hasher_args = adapters.from_config(**hashing_settings)
+        self._check_adapter_role(hasher_type, adapters.HashAdapter)
         config['hashing'] = dict(hasher_args, name=hasher_type.__name__)
 
         # Deduplication params
         chunking_settings = settings.get('chunking', {})
         chunking_settings.setdefault('name', self.DEFAULT_CHUNKER_NAME)
         chunker_type, chunker_args = adapters.from_config(**chunking_settings)
+        self._check_adapter_role(chunker_type, adapters.ChunkerAdapter)
         config['chunking'] = dict(chunker_args, name=chunker_type.__name__)
 
         if (encryption_settings := settings.get('encryption', {})) is not None:
             cipher_settings = encryption_settings.get('cipher', {})
             cipher_settings.setdefault('name', self.DEFAULT_CIPHER_NAME)
             cipher_type, cipher_args = adapters.from_config(**cipher_settings)
+            self._check_adapter_role(cipher_type, adapters.CipherAdapter)
             config['encryption'] = {
                 'cipher': dict(cipher_args, name=cipher_type.__name__)
             }
@@ -515,6 +524,7 @@ class Repository:
         user_kdf_type, user_kdf_args = adapters.from_config(
             **user_kdf_settings, length=cipher.key_bytes
         )
+        self._check_adapter_role(user_kdf_type, adapters.KDFAdapter)
         user_kdf = user_kdf_type(**user_kdf_args)
 
         if private is None:
@@ -524,12 +534,14 @@ class Repository:
             shared_kdf_type, shared_args = adapters.from_config(
                 **shared_kdf_settings, length=cipher.key_bytes
             )
+            self._check_adapter_role(shared_kdf_type, adapters.KDFAdapter)
             shared_kdf = shared_kdf_type(**shared_args)
 
             # Message authentication
             mac_settings = encryption_settings.get('mac', {})
             mac_settings.setdefault('name', self.DEFAULT_MAC_NAME)
             mac_type, mac_args = adapters.from_config(**mac_settings)
+            self._check_adapter_role(mac_type, adapters.MACAdapter)
             mac = mac_type(**mac_args)
 
             private = {
